@@ -312,6 +312,34 @@ theorem mono_complete (s : State) (f : Nat) (o : St) : Mono s (complete s f o).1
   · exact mono_cancelFut ..
   · exact mono_setOutcome ..
 
+theorem mono_createTask (s : State) (c : Coro) : Mono s (createTask s c).1 := by
+  refine ⟨by simp [createTask, alloc, State.setTask], fun g hg _ => ?_⟩
+  have : g ≠ s.next := by omega
+  simp [createTask, alloc, State.setTask, State.st, this]
+
+theorem mono_scheduleRpc (s : State) (c : Call) : Mono s (scheduleRpc s c).1 := by
+  refine ⟨by simp [scheduleRpc, alloc, State.setTask], fun g hg _ => ?_⟩
+  have : g ≠ s.next := by omega
+  simp [scheduleRpc, alloc, State.setTask, State.st, this]
+
+theorem mono_newAction (s : State) (fn : Call) : Mono s (newAction s fn).1 := by
+  refine ⟨by simp [newAction, alloc, State.setAct], fun g hg _ => ?_⟩
+  have : g ≠ s.next := by omega
+  simp [newAction, alloc, State.setAct, State.st, this]
+
+theorem mono_runAction (s : State) (a : Nat) : Mono s (runAction s a).1 := by
+  unfold runAction
+  split
+  · exact Mono.refl _
+  · split
+    · exact Mono.refl _
+    · split
+      · exact mono_captureSetExc ..
+      · exact (mono_setAct ..).trans (mono_captureSetResult ..)
+      · split
+        · exact (mono_setAct ..).trans (mono_captureSetExc ..)
+        · exact mono_setAct ..
+
 theorem mono_envStep (d) (fuel : Nat) (s : State) (ev) : Mono s (envStep d fuel s ev) := by
   cases ev with
   | complete f => exact (mono_complete ..).trans (mono_runStack ..)
